@@ -1532,6 +1532,7 @@ func (c *c19) jobOptions(maxLen int) {
 					}
 				}
 				r.Eval()
+				r.Sample(func() any { return map[string]any{"entry": "New", "options": sn} })
 				var res *resource.Resource
 				var err error
 				func() {
